@@ -42,6 +42,9 @@ def gen_cases(ctx):
     # staggered multi-axis constraint: every order of the five constraints (predicate only: partial_real_position is not in the Coq model)
     ws = P.witness_stagger()
     cases.append({"sys": ws, "perms": [{"order": [0, 1, 2, 3], "cperm": list(p)} for p in itertools.permutations(range(5))], "tag": "witness-stagger"})
+    # stretched grid, SizeConstraint listed before / after the positioning of its reference (predicate only: the Coq model is the uniform-grid solver)
+    wz = P.witness_size_first()
+    cases.append({"sys": wz, "perms": [{"order": list(o), "cperm": list(p)} for o in ([0, 1, 2], [0, 2, 1]) for p in itertools.permutations(range(3))], "tag": "witness-size-first"})
     # witness_single + an unrelated object: acceptance must not depend on unrelated objects either (same constraint list)
     n = ctx.pick(54, 400)
     for i in range(n):
@@ -57,7 +60,7 @@ def run_cases(ctx, cases):
 
 def coq_expr(case, out):
     s = case["sys"]
-    if s.get("real_pos"):
+    if s.get("real_pos") or s.get("widths"):
         return None
     parts = [P.agree_expr(s, p["order"], [s["cons"][i] for i in p["cperm"]], r) for p, r in zip(case["perms"], out["runs"])]
     return "(" + " && ".join(parts) + ")%bool"
